@@ -62,9 +62,9 @@ fn any_millis(max_ms: u64) -> Duration {
     Duration::new(secs, ms * 1_000_000)
 }
 
-fn one_request(with_budget: bool, with_pred: bool, dynamic_max: bool) {
+fn one_request(with_budget: bool, with_pred: bool, dynamic_max: bool, max_bound: usize) {
     let max_attempts: usize = kani::any();
-    kani::assume(max_attempts <= 3);
+    kani::assume(max_attempts <= max_bound);
     let g = gh();
     g.delays = [any_millis(10_000), any_millis(10_000), any_millis(10_000)];
     g.grants = [kani::any(), kani::any(), kani::any()];
@@ -112,7 +112,7 @@ fn one_request(with_budget: bool, with_pred: bool, dynamic_max: bool) {
     let mut result = None;
     let mut retries: usize = 0; // sleeps completed so far
     let mut step = 0;
-    while step < 3 {
+    while step + 1 < max_bound.max(1) + 1 && step < 3 {
         // poll at the current instant
         match svc::poll_once(fut.as_mut()) {
             Poll::Ready(x) => {
@@ -196,17 +196,17 @@ fn one_request(with_budget: bool, with_pred: bool, dynamic_max: bool) {
             assert!(gh().predicate_calls == 0, "[C05.no_predicate] without a predicate every error is retryable");
         }
     }
-    kani::cover!(mon().calls == 3, "three attempts reachable");
+    kani::cover!(mon().calls as usize == max_bound, "the largest number of attempts is reachable");
     drop(fut);
     std::mem::forget(r);
 }
 
-macro_rules! proofs { ($($name:ident = ($b:expr, $p:expr, $d:expr)),*) => {$(
+macro_rules! proofs { ($($name:ident = ($b:expr, $p:expr, $d:expr, $m:expr)),*) => {$(
     #[kani::proof]
     #[kani::unwind(5)]
     #[kani::stub(std::time::Instant::now, tokio::model::std_instant_now)]
     #[kani::stub(catch_unwind, crate::verif_kani::env::catch_unwind_stub)]
-    fn $name() { one_request($b, $p, $d) }
+    fn $name() { one_request($b, $p, $d, $m) }
 )*}}
 /// Before the backoff has elapsed the call is still pending and no retry has been issued.
 #[kani::proof]
@@ -281,5 +281,6 @@ fn c20_retries_unready() {
     std::mem::forget(r);
 }
 
-proofs!(plain = (false, false, false), with_predicate = (false, true, false), with_budget = (true, false, false),
-        with_budget_predicate_dynamic_max = (true, true, true));
+proofs!(plain = (false, false, false, 3), with_predicate = (false, true, false, 3), with_budget = (true, false, false, 3),
+        with_budget_predicate_dynamic_max = (true, true, true, 3),
+        plain_two_attempts = (false, false, false, 2), with_budget_two_attempts = (true, true, false, 2));
